@@ -101,6 +101,8 @@ func loadRepo(dir, tier, arch string) (*Ctx, error) {
 		}
 		return a.Pos() < b.Pos()
 	})
+	c.indexBoundMethods()
+	c.indexDirectCallers()
 	return c, nil
 }
 
